@@ -802,6 +802,13 @@ def plan_C19(w):
     if not r.get("complete"):
         raise Infra("Quorum.tla model checking did not complete: %s" % r.get("raw_tail"))
     tlaps = tlaps_quorum(w)
+    # sensitivity control: with a "super-majority" of one half the design diverges at once
+    mm = w.model_check("hg2_mutSM", "MC_hg2_mutSM.cfg", module="MC_hg.tla", workers=4, timeout=600)
+    w.mc.pop()
+    if not mm.get("violated"):
+        raise Infra("spec mutant MC_hg2_mutSM.cfg (SuperMajority(n) = n/2) was not rejected by TLC: %s" % mm.get("raw_tail"))
+    w.notes.append("spec mutant MC_hg2_mutSM.cfg (SuperMajority(n) = n div 2 in Babble.tla, N = 2) is rejected by TLC: %s" % mm["violated"])
+    log("  mc mutant    MC_hg2_mutSM.cfg rejected: %s" % mm["violated"])
     tr, sm = w.drive("quorum", "quorum", ["-seed", w.seed, "-steps", 40 if Q(w) else 400])
     tv = w.validate(tr)
     violations, known_hits, drift = judge(w, "C19", [tv], known)
